@@ -1,4 +1,65 @@
-(* C14 — placeholder (extended below). *)
-From Astro Require Import Base Text FormatModel.
-Theorem C14_placeholder : parse_format_string [] = []. Proof. exact eq_refl. Qed.
-Print Assumptions C14_placeholder.
+(* C14 — text-consuming APIs return a Result for every input and never panic; an Ok is a valid in-range value.
+   ParseModel / FormatModel transcribe the parsers and formatters with every partial operation explicit: `must`
+   marks an unwrap() of a remove_part/pick_part, nth_name an .nth(i).unwrap(), unwrap the DateTime offset shifts;
+   Panic is an outcome of the model, and the theorems say no input reaches it.  Text is a list of Unicode scalar
+   values (any content, any length); patterns are arbitrary text too (unbalanced quotes included).
+   Proved here for the model; that the model reproduces the implementation's outcome class (Ok / Err / panic) is
+   what the correspondence run checks on every case it generates.
+   Not expressed as a theorem: CronSchedule::parse — its model (CronModel.parse_expression) has type option, i.e. it
+   has no failure outcome besides rejection because the code contains no indexing, slicing, unwrap or unchecked
+   arithmetic (every number goes through u8::from_str); panics of that function are watched by the harness only. *)
+From Astro Require Import Base Text DateModel TimeModel ApiModel InstantSpec FormatModel ParseModel TextProofs.
+
+(* parse: every (input, pattern) pair gives Ok or Err *)
+Theorem C14_parse_total : forall now s fmt,
+  date_parse now s fmt <> Panic /\ time_parse s fmt <> Panic /\ dt_parse now s fmt <> Panic.
+Proof. intros now s fmt. exact (conj (date_parse_np now s fmt) (conj (time_parse_np s fmt) (dt_parse_np now s fmt))). Qed.
+(* ... and an Ok is a value inside the range: day number in i32, time of day below 24 h, offset inside +-24 h,
+   instant and local reading both representable *)
+Theorem C14_parse_valid : forall now s fmt,
+  (forall d, date_parse now s fmt = Ok d -> in_i32 d) /\
+  (forall t, time_parse s fmt = Ok t -> Inv_tm t) /\
+  (forall v, dt_parse now s fmt = Ok v -> Inv_dt v /\ inst_in_range (local_instant v)).
+Proof. intros now s fmt. exact (conj (date_parse_valid now s fmt) (conj (time_parse_valid s fmt) (dt_parse_valid now s fmt))). Qed.
+(* parse_rfc3339 *)
+Theorem C14_rfc3339_total : forall s,
+  dt_parse_rfc3339 s <> Panic /\ (forall v, dt_parse_rfc3339 s = Ok v -> Inv_dt v /\ inst_in_range (local_instant v)).
+Proof. exact rfc_parse_total. Qed.
+(* from_str of the three types *)
+Theorem C14_from_str_total : forall now s,
+  (date_from_str now s <> Panic /\ forall d, date_from_str now s = Ok d -> in_i32 d) /\
+  (time_from_str s <> Panic /\ forall t, time_from_str s = Ok t -> Inv_tm t) /\
+  (dt_from_str s <> Panic /\ forall v, dt_from_str s = Ok v -> Inv_dt v /\ inst_in_range (local_instant v)).
+Proof.
+  intros now s.
+  exact (conj (conj (date_parse_np now s P_DATE_ISO) (date_parse_valid now s P_DATE_ISO))
+        (conj (conj (time_parse_np s P_TIME) (time_parse_valid s P_TIME)) (rfc_parse_total s))).
+Qed.
+(* format returns a String: for every pattern the model's result is Ok (neither Panic nor an error), for every day
+   number, every Time and every DateTime whose instant and local reading are representable *)
+Theorem C14_format_total : forall fmt,
+  (forall days, exists out, date_format days fmt = Ok out) /\
+  (forall t, exists out, time_format t fmt = Ok out) /\
+  (forall v, Inv_dt v -> inst_in_range (local_instant v) -> exists out, dt_format v fmt = Ok out).
+Proof.
+  intros fmt. exact (conj (fun d => date_format_total d fmt) (conj (fun t => time_format_total t fmt)
+                    (fun v I L => dt_format_total v fmt (conj I L)))).
+Qed.
+
+(* the hypotheses are met by ordinary values; the panics the property text quotes are errors in the model too *)
+Example C14_nonvacuous :
+  Inv_dt (mkDT 738000 43200000000000 3600) /\ inst_in_range (local_instant (mkDT 738000 43200000000000 3600)) /\
+  date_parse 2024 [50;48;50;50] [121;121;121;121;39;84;39] = Err EFmt /\            (* Date::parse("2022", "yyyy'T'") *)
+  date_parse 2024 [97;233] [100;100] = Err EFmt /\                                   (* "a\u{e9}" with "dd" *)
+  (exists out, date_format 738000 [39] = Ok out).                                    (* a lone quote as a pattern *)
+Proof.
+  unfold Inv_dt, inst_in_range, local_instant, instant, MIN_I, MAX_I, in_i32, off_ok. cbn [dt_days dt_nanos dt_off].
+  repeat split; try (unfold NANOS_PER_DAY, NANOS_PER_SEC, SECS_PER_DAY, I32_MIN, I32_MAX; lia); try (vm_compute; reflexivity).
+  eexists. vm_compute. reflexivity.
+Qed.
+
+Print Assumptions C14_parse_total.
+Print Assumptions C14_parse_valid.
+Print Assumptions C14_rfc3339_total.
+Print Assumptions C14_from_str_total.
+Print Assumptions C14_format_total.
